@@ -1,5 +1,5 @@
 use super::*;
-use crate::ast_util::{purge_trivia, range};
+use crate::ast_util::{numeric_literal_value, range};
 use std::convert::Infallible;
 
 use full_moon::{
@@ -70,7 +70,7 @@ impl Visitor for Color3BoundsVisitor {
 
             then {
                 for argument in arguments {
-                    if let Ok(number) = purge_trivia(argument).to_string().parse::<f32>() {
+                    if let Some(number) = numeric_literal_value(argument) {
                         if !(0.0..=1.0).contains(&number) {
                             self.positions.push(range(argument));
                         }
